@@ -20,6 +20,7 @@ MInit(c) ==
    open |-> <<>>,              \* thread -> id of the call in progress (function)
    lg |-> <<>>,                \* logger name -> [sinks, lvl, valid, sysclock]
    sk |-> <<>>,                \* sink name -> [lvl, deny, denyall, written, flushedTo, alive, held, failing]
+   getseen |-> <<>>,           \* thread -> was the logger it looks up registered when get_logger() was called
    need |-> <<>>,              \* thread -> ids that must be written and flushed when its flush_log returns
    lastTs |-> 0, anyLate |-> FALSE,
    dropped |-> 0, reported |-> 0, faulty |-> {}, nfaultNotes |-> 0,
@@ -53,8 +54,15 @@ ECreated(m, e) ==
   THEN Check(m, "ok17", ~m.lg[e.lg].valid \/ m.lg[e.lg].ptr = 0 \/ m.lg[e.lg].ptr = e.ptr,
              "create_or_get_logger returned a different logger object for an existing name")
   ELSE [m EXCEPT !.lg = Upd(m.lg, e.lg, [sinks |-> e.sinks, lvl |-> 0, valid |-> TRUE, present |-> TRUE, sys |-> TRUE, ptr |-> e.ptr])]
+\* get_logger(): linearizable lookup. A logger that was registered (and valid) when the call STARTED must be found; one that is
+\* being created concurrently may or may not be.
+EGetCall(m, e) ==
+  [m EXCEPT !.getseen = Upd(m.getseen, e.t, Has(m.lg, e.lg) /\ m.lg[e.lg].present /\ m.lg[e.lg].valid /\ m.lg[e.lg].ptr # 0)]
 EGot(m, e) ==
-  IF Has(m.lg, e.lg) /\ m.lg[e.lg].present /\ m.lg[e.lg].valid /\ m.lg[e.lg].ptr # 0
+  IF e.ptr = 0
+  THEN Check(m, "ok17", ~(Has(m.getseen, e.t) /\ m.getseen[e.t] /\ Has(m.lg, e.lg) /\ m.lg[e.lg].valid),
+             "get_logger did not find a logger that was registered before the call started")
+  ELSE IF Has(m.lg, e.lg) /\ m.lg[e.lg].present /\ m.lg[e.lg].ptr # 0
   THEN Check(m, "ok17", e.ptr = m.lg[e.lg].ptr, "get_logger did not return the logger registered under that name")
   ELSE m
 
@@ -251,6 +259,7 @@ MStep(m, e) ==
     [] e.k = "logger" -> ELogger(m, e)
     [] e.k = "created" -> ECreated(m, e)
     [] e.k = "got" -> EGot(m, e)
+    [] e.k = "getcall" -> EGetCall(m, e)
     [] e.k = "logcall" -> ELogCall(m, e)
     [] e.k = "ts" -> ETs(m, e)
     [] e.k = "commit" -> ECommit(m, e)
